@@ -46,7 +46,9 @@ class BroadcastCtx:
 
 
 class ConnCtx:
-    """management.connection(address): T_Connect / T_Disconnect around the body; connecting may be refused."""
+    """management.connection(address): T_Connect / T_Disconnect around the body; connecting may be refused; if
+    the peer closed the connection in between, leaving the context raises ManagementConnectionRefused (C43:
+    disconnect_closes_and_releases_everything, connection_context_opens_once_and_always_closes)."""
 
     def __init__(self, address):
         self.address = address
@@ -59,6 +61,8 @@ class ConnCtx:
 
     async def __aexit__(self, exc_type, exc, tb):
         ghost("T").append(("disconnect", self.address))
+        if ghost("peer_closed") and ghost("peer_closed")[-1]:
+            raise ManagementConnectionRefused("Management connection disconnected by the peer.")
         return False
 
 
@@ -133,11 +137,14 @@ def address_read_reports_exactly_the_devices_in_programming_mode(xk, t1, t2, t3,
 # ------------------------------------------------------------------ NM_IndividualAddress_Check
 
 
-@lemma("C44", params=dict(xk=XK, a=ADDR, refuse=Bool(), answer=Choice(0, 1, 2)))
-def address_check_tells_whether_the_address_is_occupied(xk, a, refuse, answer):
+@lemma("C44", params=dict(xk=XK, a=ADDR, refuse=Bool(), answer=Choice(0, 1, 2), peer_closed=Bool()))
+def address_check_tells_whether_the_address_is_occupied(xk, a, refuse, answer, peer_closed):
     """nm_individual_address_check: True iff the device answers the descriptor read or refuses /
-    disconnects (occupied), False only on timeout; the connection it opened is closed again."""
+    disconnects (occupied) - also a device that closes the connection without acknowledging anything, which
+    shows only when the context is left; False only on a timeout with the connection still open; the
+    connection it opened is closed again."""
     ghost("refuse_connect").append(refuse)
+    ghost("peer_closed").append(peer_closed)
     ghost("answer").append(answer)
     ghost("response").append(Telegram(destination_address=IndividualAddress(1), payload=apci.DeviceDescriptorResponse(descriptor=0, value=1)))
     r = run(nm_individual_address_check(xk, a))
@@ -147,7 +154,7 @@ def address_check_tells_whether_the_address_is_occupied(xk, a, refuse, answer):
         assert r is True and len(tr) == 1
     else:
         assert tr[-1] == ("disconnect", tr[0][1])
-        assert r == (answer != 1)
+        assert r == (answer != 1 or peer_closed)
         assert tr[1][0] == "request" and isinstance(tr[1][2], apci.DeviceDescriptorRead)
 
 
@@ -299,3 +306,11 @@ ASSUMPTIONS = [
     "asyncio is trusted behind the contract stubs: a cancelled task/future does not continue, asyncio.timeout cancels what it guards, locks are mutually exclusive, queues are FIFO, tasks switch only at awaits; interleavings inside one await are represented by 'the awaited object completes with any admissible value, times out, or the connection closes'",
     "the bus is represented by contract stubs of xknx.management with bounded numbers of simultaneous responders (<= 3 broadcast answers, <= 2 devices in programming mode)",
 ]
+
+
+# ------------------------------------------------------------------ the connection context the procedures rely on (C43)
+from contracts import c43_management as _c43  # noqa: E402
+from pyvc.api import rely_on  # noqa: E402
+
+rely_on("C44", _c43.connection_context_opens_once_and_always_closes)
+rely_on("C44", _c43.disconnect_closes_and_releases_everything)
